@@ -500,7 +500,88 @@ def probe_relink(it, pr, ctx, case, flags):
                           {"when": when, "want": ["c05-copy-%d" % n, "the copy"], "got": list(seen)})
 
 
-PROBES = {"alias": probe_alias, "dimlink": probe_dimlink, "append": probe_append, "relink": probe_relink}
+def probe_stale_source(it, pr, ctx, case, flags):
+    """
+    A handle to a source that has meanwhile been deleted from the tree (itself, or with an ancestor) denotes nothing
+    that belongs to the block any more: every sources list refuses it and stays as it is.  Last probe of a case.
+    """
+    s = it.pick("source", pr["t"], lambda x: x.parent.kind == "source") or it.pick("source", pr["t"])
+    if s is None:
+        return
+    blk = s.block()
+    kept = it.handle(s)
+    kept.name, kept.id
+    victim = s
+    if pr["k"] % 2 and s.parent.kind == "source":
+        victim = s.parent                      # the ancestor goes, the kept descendant with it
+    cont = it.container_of(victim)
+    del cont[victim.id]
+    it._kill(victim)
+    owners = [e for e in it.ents if e.alive and e.kind in ("array", "tag", "mtag", "group") and e.block() is blk]
+    if not owners:
+        return
+    flags.add("append:deleted-source-handle")
+    flags.add("nontrivial")
+    for o in owners[pr["n"] % len(owners):][:3]:
+        lst = it.handle(o).sources
+        before = [x.id for x in lst]
+        for via in ("append", "extend"):
+            try:
+                lst.append(kept) if via == "append" else lst.extend([kept])
+                status = "ok"
+            except Exception as exc:  # noqa
+                status = type(exc).__name__
+            after = [x.id for x in it.handle(o).sources]
+            key = "C05/%s/deleted-source-handle/%s.sources" % (via, o.kind)
+            if status == "ok":
+                ctx.violation(key + "/accepted", case, {"owner": o.path(), "before": before, "after": after})
+            elif after != before:
+                ctx.violation(key + "/refused-but-changed", case, {"before": before, "after": after})
+            if after != before:
+                return
+
+
+def probe_refeature(it, pr, ctx, case, flags):
+    """a feature retargeted frame -> array (and back): feature.data IS the entity assigned last, of its kind"""
+    ft = it.pick("feature", pr["t"])
+    if ft is None:
+        return
+    blk = ft.parent.parent
+    fr = it.pick("frame", pr["k"], lambda x: x.parent is blk)
+    arr = it.pick("array", pr["n"], lambda x: x.parent is blk)
+    if fr is None or arr is None:
+        return
+    flags.add("feature-retargeted:frame->array")
+    flags.add("nontrivial")
+    fh = lambda: it.handle(ft)  # noqa: E731
+    seq = [("frame", fr), ("array", arr)] + ([("frame", fr), ("array", arr)] if pr["k"] % 2 else [])
+    for step, (kind, tgt) in enumerate(seq):
+        try:
+            fh().data = it.handle(tgt)
+        except Exception as exc:  # noqa
+            ctx.count("refeature-refused:" + type(exc).__name__)
+            return
+        ft.single["data"] = tgt
+        for when in ("in-session",) + (("after-reopen",) if step == len(seq) - 1 else ()):
+            if when == "after-reopen":
+                it.reopen("a")
+            try:
+                got = fh().data
+                a = walk.walk_obj(got, timestamps=False)
+                b = walk.walk_obj(it.handle(tgt), timestamps=False)
+            except Exception as exc:  # noqa
+                ctx.violation("C05/feature-retarget/%s/not-readable" % kind, case, {"when": when, "raised": type(exc).__name__, "step": step})
+                return
+            d = walk.diff(a, b)
+            if d:
+                ctx.violation("C05/feature-retarget/%s/differs-from-original" % kind, case,
+                              {"when": when, "step": step, "path": d[0], "via-feature": walk.brief(d[1], 120),
+                               "original": walk.brief(d[2], 120)})
+                return
+
+
+PROBES = {"alias": probe_alias, "dimlink": probe_dimlink, "append": probe_append, "relink": probe_relink,
+          "stale_source": probe_stale_source, "refeature": probe_refeature}
 
 
 def run_case(case, ctx):
@@ -566,7 +647,8 @@ def case_strategy():
         "build": ops.program(BUILD, min_size=0, max_size=10, name_pool=["sig", "src", "g1", "tag", "time"]),
         "probes": st.lists(probe_strategy(), min_size=1, max_size=8),
         "final": st.one_of(st.none(), st.fixed_dictionaries({
-            "probe": st.just("relink"), "slot": st.sampled_from(["metadata", "extents", "positions", "list"]),
+            "probe": st.sampled_from(["relink", "relink", "stale_source", "refeature"]),
+            "slot": st.sampled_from(["metadata", "extents", "positions", "list"]),
             "k": ops.IDX, "t": ops.IDX, "n": st.integers(0, 99)}))})
 
 
